@@ -4,6 +4,7 @@ Monitor: reference tokenizer (oracle/hedparse.py) compared with the tree hed bui
 an exhaustively enumerated space, plus token sequences of real schema tags, plus random Unicode strings.
 """
 import itertools
+import zlib
 
 from hedmon.core import env
 from hedmon.oracle import hedparse
@@ -21,7 +22,7 @@ RULE = ("exhaustive: every string over {a,' ',',','(',')','/'} up to alpha_len a
         "distinct = distinct text")
 ASSUMPTIONS = ["reference tokenizer hedmon/oracle/hedparse.py (40 lines) encodes the property text",
                "schema 8.3.0 is used to resolve tag forms for the short/long re-parse relation"]
-MIN_MONITOR_EVALS = {"tree-vs-reference": 1000, "unbalanced-empty-and-reported": 1000, "reparse-forms": 1000,
+MIN_MONITOR_EVALS = {"tree-vs-reference": 1000, "unbalanced-empty-and-reported": 1000, "unbalanced-reported-in-sidecar": 200, "reparse-forms": 1000,
                      "no-exception": 1000}
 WATCHDOG_S = {"quick": 900, "thorough": 5400}
 
@@ -141,6 +142,21 @@ def check_text(text, rec, classify=True):
             if text.count("(") == text.count(")"):
                 key = "paren-order-unchecked"
             rec.violation("unbalanced parentheses but no PARENTHESES_MISMATCH issue", case, key=key)
+        # the same text as a sidecar entry: sidecar validation reports the mismatch too
+        if not (set(text) & set("{}#")) and text.strip() and zlib.crc32(text.encode("utf-8", "replace")) % 4 == 0:
+            import io
+            import json
+            from hed.models.sidecar import Sidecar
+            rec.mon("unbalanced-reported-in-sidecar")
+            try:
+                sc = Sidecar(io.StringIO(json.dumps({"kind": {"HED": {"a": text, "b": "Red"}}})))
+                sissues = sc.validate(schema)
+            except Exception as ex:                              # noqa
+                rec.violation(f"sidecar validation of unbalanced text raised {type(ex).__name__}", case)
+                return
+            if not any(i.get("code") == "PARENTHESES_MISMATCH" for i in sissues):
+                rec.violation("unbalanced parentheses in a sidecar entry but no PARENTHESES_MISMATCH issue", case,
+                              key="paren-order-unchecked" if text.count("(") == text.count(")") else None)
 
 
 def nontrivial(text):
